@@ -133,6 +133,51 @@ func init() {
 		Body: onceBody(2, true, true),
 	})
 	eng.Register(&eng.Scenario{
+		Name: "once-zero", Props: []string{"C16"}, MustFinish: true, ObsNames: stdObs,
+		Doc:   "promise.Once whose function succeeds with the zero value (0, nil) - after an optional first failure (choice): two concurrent callers and two later ones; the function is not called again after the success and everybody gets (0, nil)",
+		Quick: eng.Bounds{PB: 2}, Thorough: eng.Bounds{PB: 3},
+		Body: func() {
+			bg := context.Background()
+			failFirst := vsched.Choose(2) == 1
+			once := promise.NewOnce(func(ctx context.Context) (int, error) {
+				n := int(vsched.CtrAdd(c16Calls, 1))
+				if vsched.Ctr(c16Success) != 0 {
+					fail("C16.called-after-success", "function called again (call %d) after it had returned (0, nil)", n)
+				}
+				if vsched.CtrAdd(c16Active, 1) > 1 {
+					fail("C16.overlap", "function running twice at the same time (call %d)", n)
+				}
+				vsched.Point()
+				vsched.CtrAdd(c16Active, -1)
+				if failFirst && n == 1 {
+					return 0, errOnce
+				}
+				vsched.CtrSet(c16Success, 1)
+				return 0, nil
+			})
+			for i := 0; i < 2; i++ {
+				T("R", func() {
+					label("Once.Resolve")
+					v, err := once.Resolve(bg)
+					label("")
+					if v != 0 || (err != nil && err != errOnce) {
+						fail("C16.wrong-value", "Resolve returned (%d,%v)", v, err)
+					}
+				})
+			}
+			vsched.Settle()
+			for k := 0; k < 3; k++ {
+				v, err := once.Resolve(bg)
+				if v != 0 || (err != nil && (err != errOnce || vsched.Ctr(c16Success) != 0)) {
+					fail("C16.wrong-value", "late Resolve returned (%d,%v)", v, err)
+				}
+			}
+			if vsched.Ctr(c16Success) == 0 {
+				fail("C16.no-retry", "the function never succeeded although Resolve was called after its failure")
+			}
+		},
+	})
+	eng.Register(&eng.Scenario{
 		Name: "memo-3", Props: []string{"C16"}, MustFinish: true, ObsNames: stdObs,
 		Doc:   "memo.MemoizeFunc: 3 concurrent callers + a late caller, function returns a value or an error (choice); exactly one call, everybody gets its result",
 		Quick: eng.Bounds{PB: 3}, Thorough: eng.Bounds{PB: 6},
